@@ -390,7 +390,7 @@ class Interp:
             cands = v if isinstance(v, (list, tuple)) else [v]
             for c in cands:
                 if isinstance(c, AbsVal):
-                    r = c.av_ext(cname, args, kwargs)
+                    r = c.av_ext(cname, args, kwargs, self)
                     if r is not NotImplemented:
                         return r
         h = self.ext_handlers.get(cname)
@@ -433,7 +433,10 @@ class Interp:
                     return self.eval(val, self.module_env(c.module))
             raise AnalysisError(f"class attribute {v.ci.name}.{name} unknown")
         if isinstance(v, AbsVal):
-            return v.av_getattr(name)
+            r = v.av_getattr(name)
+            if isinstance(r, tuple) and len(r) == 2 and r[0] == "__ext__":
+                return self.call_ext(r[1], [v], {})
+            return r
         if isinstance(v, Rat) or is_native_number(v):
             return scalar_attr(self, v, name)
         if isinstance(v, (str, tuple, list, dict, set, slice, range, frozenset)):
@@ -467,7 +470,7 @@ class Interp:
                     return Bound(ClassRef(obj.cls), clo)
                 return Bound(obj, clo)
             f = obj.cls.lookup_field(name)
-            if f is not None:
+            if f is not None and not obj.open_attrs:
                 c, (ann, val) = f
                 d = self.field_default(c, val)
                 if d is not _MISSING:
